@@ -154,7 +154,7 @@ Definition finish {V} (pst : map key V -> list N) (put : map key V -> cstate -> 
            (x : xworld) (rs : res key V cstate (list N)) : list N * xworld :=
   match rs with
   | Ok body w => ([1%N] ++ body ++ pst (self w) ++ events (log w), put (self w) (cb w))
-  | Panic w => ([2%N] ++ pst (self w) ++ [8888%N; 8889%N], put (self w) (cb w))
+  | Panic w => ([2%N] ++ pst (self w) ++ events (log w), put (self w) (cb w))
   | UB => ([3%N], kill x)
   end.
 
@@ -345,18 +345,10 @@ Definition dbg_range (alt : bool) (c : cursor) : MV (list N) :=
   fun w => Ok (r_str (debug_pairs dk dv alt (range_list (self w) c))) w.
 
 (* the rest of a Drain consumed by for_each(closure): default fold = repeated
-   next(); a panicking closure unwinds through the Drain, whose destructor
-   drops what is left *)
-Definition call_or_drain (cl : cstate -> ans * cstate) (c : cursor) : MV unit :=
-  fun w => match (emit [EvCall 4] ;; cbk cl) w with
-           | Ok _ w' => Ok tt w'
-           | Panic w' => match drain_drop E c w' with
-                         | UB => UB
-                         | Ok _ w'' => Panic w''
-                         | Panic w'' => Panic w''
-                         end
-           | UB => UB
-           end.
+   next(); a panicking closure unwinds first through its own frame, which owns the
+   item it was given, and then through the Drain, whose destructor drops what is left *)
+Definition call_or_drain (cl : cstate -> ans * cstate) (p : key * V) (c : cursor) : MV unit :=
+  on_unwind (unwind_pair E p ;; unwind_drain E c) (emit [EvCall 4] ;; _ <- cbk cl ;; ret tt).
 Fixpoint drain_for_each (cl : cstate -> ans * cstate) (fuel : nat) (c : cursor) (cnt : nat) : MV nat :=
   match fuel with
   | 0 => ret cnt
@@ -364,12 +356,24 @@ Fixpoint drain_for_each (cl : cstate -> ans * cstate) (fuel : nat) (c : cursor) 
       '(o, c') <- drain_next c ;;
       match o with
       | None => ret cnt
-      | Some _ => call_or_drain cl c' ;; drain_for_each cl f c' (S cnt)
+      | Some p => call_or_drain cl p c' ;; drain_for_each cl f c' (S cnt)
+      end
+  end.
+(* count() (the library default: fold over next()): every item is destroyed as soon as it has been
+   counted; a panicking Drop unwinds through the Drain, which drops what is left *)
+Fixpoint drain_count (fuel : nat) (c : cursor) (cnt : nat) : MV nat :=
+  match fuel with
+  | 0 => ret cnt
+  | S f =>
+      '(o, c') <- drain_next c ;;
+      match o with
+      | None => ret cnt
+      | Some p => on_unwind (unwind_drain E c') (drop_pair E p) ;; drain_count f c' (S cnt)
       end
   end.
 
 (* [with_dbg]: Drain implements Debug, SetDrain does not.
-   fate: 0 = dropped | 1 = forgotten | 2 = rest consumed by for_each(closure) *)
+   fate: 0 = dropped | 1 = forgotten | 2 = rest consumed by for_each(closure) | 3 = rest consumed by count() *)
 Definition drain_session (with_dbg : bool) (cl : cstate -> ans * cstate) (take : nat) (fate : N) : MV (list N) :=
   c <- drain ;;
   '(acc, c') <- drain_steps take c [] ;;
@@ -377,6 +381,7 @@ Definition drain_session (with_dbg : bool) (cl : cstate -> ans * cstate) (take :
   d1 <- (if with_dbg then dbg_range true c' else ret []) ;;
   tail <- (if N.eqb fate 0 then (drain_drop E c' ;; ret [])
            else if N.eqb fate 2 then (n <- drain_for_each cl (S (cursor_len c')) c' 0 ;; ret [nn n])
+           else if N.eqb fate 3 then (n <- drain_count (S (cursor_len c')) c' 0 ;; ret [nn n])
            else ret []) ;;
   ret (acc ++ [nn (cursor_len c')] ++ d0 ++ d1 ++ tail).
 End DrainSession.
@@ -454,7 +459,18 @@ Definition dbg_into (kind : N) (alt : bool) : Mm (list N) :=
                else if N.eqb kind 2 then debug_values dbg_val alt (List.map snd l)
                else debug_pairs dbg_key dbg_val alt l)) w.
 
-(* the rest of a consuming iterator consumed by for_each(closure) *)
+(* what a consumer of the iterator's items owns: the pair, or the half that into_keys / into_values yield *)
+Definition unwind_item (kind : N) (p : key * vobj) : Mm unit :=
+  if N.eqb kind 1 then unwind_key Em (fst p)
+  else if N.eqb kind 2 then unwind_val Em (snd p)
+  else unwind_pair Em p.
+Definition into_rest (kind : N) (p : key * vobj) : Mm unit :=
+  if N.eqb kind 1 then drop_key Em (fst p)
+  else if N.eqb kind 2 then drop_val Em (snd p)
+  else drop_pair Em p.
+
+(* the rest of a consuming iterator consumed by for_each(closure): a panicking closure
+   destroys the item it was given while its frame unwinds *)
 Fixpoint into_for_each (kind : N) (fuel cnt : nat) : Mm nat :=
   match fuel with
   | 0 => ret cnt
@@ -462,18 +478,40 @@ Fixpoint into_for_each (kind : N) (fuel cnt : nat) : Mm nat :=
       o <- into_iter_next ;;
       match o with
       | None => ret cnt
-      | Some p => _ <- into_steps_item kind p ;; emit [EvCall 4] ;; _ <- cbk (nx_cb sc) ;;
+      | Some p => _ <- into_steps_item kind p ;;
+                  on_unwind (unwind_item kind p) (emit [EvCall 4] ;; _ <- cbk (nx_cb sc) ;; ret tt) ;;
                   into_for_each kind f (S cnt)
       end
   end.
+(* count() by the library default (IntoKeys, IntoValues): fold over next(), every yielded half is
+   destroyed as soon as it has been counted *)
+Fixpoint into_count (kind : N) (fuel cnt : nat) : Mm nat :=
+  match fuel with
+  | 0 => ret cnt
+  | S f =>
+      o <- into_iter_next ;;
+      match o with
+      | None => ret cnt
+      | Some p => _ <- into_steps_item kind p ;; into_rest kind p ;; into_count kind f (S cnt)
+      end
+  end.
 
+(* fate: 0 = dropped | 1 = forgotten | 2 = for_each(closure) | 3 = count(): IntoIter overrides it
+   (src/iterators.rs:255: the length, then the iterator is dropped), the other kinds use the default.
+   The iterator is a local of the caller: a panic inside next() (the Drop of the unused half) unwinds
+   through it and its destructor drops what is left. *)
 Definition into_session (kind : N) (take : nat) (fate : N) : Mm (list N) :=
-  acc <- into_steps kind take [] ;;
-  d0 <- dbg_into kind false ;;
-  d1 <- dbg_into kind true ;;
-  l <- get_len ;;
+  '(acc, d0, d1, l) <- finally_drop Em (
+      acc <- into_steps kind take [] ;;
+      d0 <- dbg_into kind false ;;
+      d1 <- dbg_into kind true ;;
+      l <- get_len ;;
+      ret (acc, d0, d1, l)) ;;
   tail <- (if N.eqb fate 0 then (drop_map Em ;; ret [])
            else if N.eqb fate 2 then (n <- finally_drop Em (into_for_each kind (S l) 0) ;; ret [nn n])
+           else if N.eqb fate 3 then
+             (if N.eqb kind 0 then (drop_map Em ;; ret [nn l])
+              else (n <- finally_drop Em (into_count kind (S l) 0) ;; ret [nn n]))
            else ret []) ;;
   ret (acc ++ d0 ++ d1 ++ [nn l] ++ tail).
 
@@ -519,7 +557,10 @@ Fixpoint d_nth (n : nat) (c : cursor) : MV (option (key * V) * cursor) :=
   match n with
   | 0 => drain_next c
   | S n' => '(o, c') <- drain_next c ;;
-            match o with None => ret (None, c') | Some p => drop_pair E p ;; d_nth n' c' end
+            match o with
+            | None => ret (None, c')
+            | Some p => on_unwind (unwind_drain E c') (drop_pair E p) ;; d_nth n' c'   (* the Drain unwinds *)
+            end
   end.
 Definition r_opt_item (rp : key * V -> list N) (o : option (key * V)) : list N :=
   match o with None => [0%N] | Some p => 1%N :: rp p end.
@@ -550,21 +591,18 @@ Fixpoint i_nth (n : nat) : MV (list N) :=
             match o with None => ret [0%N] | Some p => _ <- item p ;; rest p ;; i_nth n' end
   end.
 Definition into_nth_session (pre nk : nat) : MV (list N) :=
-  i_skip pre ;;
-  l1 <- get_len ;;
-  r <- i_nth nk ;;
-  l2 <- get_len ;;
-  r2 <- i_nth 0 ;;
-  l3 <- get_len ;;
+  body <- finally_drop E (                      (* the iterator is a local of the caller: it unwinds *)
+    i_skip pre ;;
+    l1 <- get_len ;;
+    r <- i_nth nk ;;
+    l2 <- get_len ;;
+    r2 <- i_nth 0 ;;
+    l3 <- get_len ;;
+    ret ([nn l1] ++ r ++ [nn l2] ++ r2 ++ [nn l3])) ;;
   drop_map E ;;
-  ret ([nn l1] ++ r ++ [nn l2] ++ r2 ++ [nn l3]).
+  ret body.
 End Into.
 End NthSessions.
-
-Definition into_rest (kind : N) (p : key * vobj) : Mm unit :=
-  if N.eqb kind 1 then drop_key Em (fst p)
-  else if N.eqb kind 2 then drop_val Em (snd p)
-  else drop_pair Em p.
 
 (* --- entry chains --- *)
 Definition r_slotval (tag : N) (i : nat) : Mm (list N) :=
@@ -814,7 +852,19 @@ Fixpoint set_into_for_each (fuel cnt : nat) : Ms nat :=
       o <- into_iter_next ;;
       match o with
       | None => ret cnt
-      | Some _ => emit [EvCall 4] ;; _ <- cbk (nx_cb sc) ;; set_into_for_each f (S cnt)
+      | Some p => on_unwind (unwind_key Es (fst p)) (emit [EvCall 4] ;; _ <- cbk (nx_cb sc) ;; ret tt) ;;
+                  set_into_for_each f (S cnt)
+      end
+  end.
+(* SetIntoIter::count is the library default: every element is destroyed as soon as it has been counted *)
+Fixpoint set_into_count (fuel cnt : nat) : Ms nat :=
+  match fuel with
+  | 0 => ret cnt
+  | S f =>
+      o <- into_iter_next ;;
+      match o with
+      | None => ret cnt
+      | Some p => drop_key Es (fst p) ;; set_into_count f (S cnt)
       end
   end.
 
@@ -883,6 +933,7 @@ Definition step (o : op) (x : xworld) : list N * xworld :=
                   (acc <- set_into_steps take [] ;; l <- get_len ;;
                    tail <- (if N.eqb fate 0 then (drop_map Es ;; ret [])
                             else if N.eqb fate 2 then (n <- finally_drop Es (set_into_for_each (S l) 0) ;; ret [nn n])
+                            else if N.eqb fate 3 then (n <- finally_drop Es (set_into_count (S l) 0) ;; ret [nn n])
                             else ret []) ;;
                    ret (acc ++ [nn l] ++ tail)) ;;
                ret body) x
@@ -952,10 +1003,39 @@ Definition teardown (x : xworld) : list N * xworld :=
   (o0 ++ o1 ++ o2 ++ o3 ++
    [8890%N; n_eq (xcb x); n_clone (xcb x); n_call (xcb x); next_id (xcb x)], x).
 
+(* A call that unwinds is compared on what the CRATE destroyed: the objects the caller handed in with
+   this very call are destroyed either by the crate or by the caller's own unwinding frames, which the
+   model does not distinguish, so their identities are struck from the drop events of a panicking call. *)
+Definition ids_k (k : key) : list N := [kid k].
+Definition ids_q (q : query) : list N := match q with QKey k => [kid k] | _ => [] end.
+Definition op_ids (o : op) : list N :=
+  match o with
+  | OInsert _ k v | OInsertKV _ k v | OCheckedInsert _ k v | OInsertUnchecked _ k v | OEntry _ k _ v => [kid k; vid v]
+  | OGet _ q | OGetKV _ q | OContains _ q | OIndex _ q | ORemove _ q | ORemoveEntry _ q
+  | OGetMut _ q _ | OIndexMut _ q _ | SContains _ q | SGet _ q | SRemove _ q | STake _ q => ids_q q
+  | OFromIter _ _ items => flat_map (fun p => [kid (fst p); vid (snd p)]) items
+  | SInsert _ k | SReplace _ k => [kid k]
+  | SExtend _ items | SFromIter _ _ items => List.map kid items
+  | _ => []
+  end.
+Fixpoint split_at (m : N) (l : list N) : list N * list N :=
+  match l with
+  | [] => ([], [])
+  | a :: t => if N.eqb a m then ([], t) else let '(x, y) := split_at m t in (a :: x, y)
+  end.
+Definition censor (ids : list N) (obs : list N) : list N :=
+  match obs with
+  | 2%N :: t =>
+      let '(pst, ev) := split_at 8888 t in
+      let '(drops, clones) := split_at 8889 ev in
+      2%N :: pst ++ [8888%N] ++ List.filter (fun i => negb (existsb (N.eqb i) ids)) drops ++ [8889%N] ++ clones
+  | _ => obs
+  end.
+
 Fixpoint run_ops (ops : list op) (x : xworld) : list (list N) :=
   match ops with
   | [] => [fst (teardown x)]
-  | o :: t => let '(obs, x') := step o x in obs :: run_ops t x'
+  | o :: t => let '(obs, x') := step o x in censor (op_ids o) obs :: run_ops t x'
   end.
 
 End Step.
